@@ -251,6 +251,27 @@ func RunIn(p Project, dir string) (res Result) {
 }
 
 func runWith(p Project, dir string, opts []core.Option) (res Result) {
+	res, _, _ = runRaw(p, dir, opts, nil)
+	return res
+}
+
+// SharedFile builds the file value a caller keeps and hands to the library
+// more than once (the library does not copy the bytes).
+func SharedFile(name string, content []byte) *fs.File {
+	return fs.NewFile(filepath.Join("/nonexistent-verif", name), content)
+}
+
+// RunShared processes a caller-owned file value and returns, besides the
+// result, the byte slices exactly as ToJson and ToJsonIndent handed them out
+// (not copied), so a check can see whether they stay intact afterwards.
+func RunShared(f *fs.File, opts ...core.Option) (res Result, raw, rawIndent []byte) {
+	if len(opts) == 0 {
+		opts = []core.Option{core.WithFixedSeedForRegex()}
+	}
+	return runRaw(Project{}, "", opts, f)
+}
+
+func runRaw(p Project, dir string, opts []core.Option, shared *fs.File) (res Result, raw, rawIndent []byte) {
 	stage := "new"
 	defer func() {
 		if r := recover(); r != nil {
@@ -268,8 +289,10 @@ func runWith(p Project, dir string, opts []core.Option) (res Result) {
 		j, err = kit.NewJapi(filepath.Join(dir, p.Root), opts...)
 		if err != nil {
 			res.OpenErr = err.Error()
-			return res
+			return res, nil, nil
 		}
+	} else if shared != nil {
+		j = kit.NewJApiFromFile(shared, opts...)
 	} else {
 		j = kit.NewJApiFromFile(fs.NewFile(filepath.Join("/nonexistent-verif", p.Root), []byte(p.Files[p.Root])), opts...)
 	}
@@ -277,7 +300,7 @@ func runWith(p Project, dir string, opts []core.Option) (res Result) {
 	if je := j.ValidateJAPI(); je != nil {
 		stage = "error-accessors"
 		res.Err = errInfo(je, dir)
-		return res
+		return res, nil, nil
 	}
 	res.Accepted = true
 	stage = "tojson"
@@ -294,7 +317,7 @@ func runWith(p Project, dir string, opts []core.Option) (res Result) {
 	res.JSONIndent = string(bi)
 	stage = "title"
 	res.Title = j.Title()
-	return res
+	return res, b, bi
 }
 
 func errInfo(je *jerr.JApiError, dir string) *ErrInfo {
